@@ -1,0 +1,190 @@
+//go:build verif
+// +build verif
+
+package bfe_tls
+
+// Hooks for the out-of-tree verification harness of property C44 (build tag verif, add-only; independent of the C41 hooks).
+// They run the REAL readClientHello on an in-memory connection and report the decisions it took.
+
+import (
+	"crypto/ecdsa"
+	"crypto/elliptic"
+	"crypto/rsa"
+	"io"
+	"math/big"
+	"net"
+	"time"
+)
+
+// VerifC44Hello is a ClientHello in terms of the fields the negotiation looks at.
+type VerifC44Hello struct {
+	Vers            uint16
+	Suites          []uint16
+	Compression     []uint8
+	Curves          []uint16
+	Points          []uint8
+	ALPN            []string
+	NPN             bool
+	TicketSupported bool
+	SessionTicket   []byte
+	SessionId       []byte
+	ServerName      string
+}
+
+// (the hello / negotiation hooks below are the C44 twins of the C41 ones: each property's hook file stands alone)
+
+// VerifC44Nego is what readClientHello decided.
+type VerifC44Nego struct {
+	Err         string // "" when readClientHello returned no error
+	Alert       int    // description of the (last) alert record written, -1 if none
+	Resume      bool
+	Vers        uint16
+	Suite       uint16 // 0 if none
+	ALPN        string // serverHello.alpnProtocol
+	ClientProto string // conn.clientProtocol
+	NPN         bool
+	NPNProtos   []string
+	ClientAuth  int
+	EcdheNoExt  bool // the ECDHE-without-extension fallback added curve/point format to the hello
+	SessVers    uint16
+	SessSuite   uint16
+	SessMaster  []byte
+}
+
+type verifC44Conn struct {
+	in  []byte
+	out []byte
+}
+
+func (f *verifC44Conn) Read(p []byte) (int, error) {
+	if len(f.in) == 0 {
+		return 0, io.EOF
+	}
+	n := copy(p, f.in)
+	f.in = f.in[n:]
+	return n, nil
+}
+func (f *verifC44Conn) Write(p []byte) (int, error) { f.out = append(f.out, p...); return len(p), nil }
+func (f *verifC44Conn) Close() error                { return nil }
+func (f *verifC44Conn) LocalAddr() net.Addr {
+	return &net.TCPAddr{IP: net.IPv4(127, 0, 0, 1), Port: 443}
+}
+func (f *verifC44Conn) RemoteAddr() net.Addr {
+	return &net.TCPAddr{IP: net.IPv4(127, 0, 0, 2), Port: 40000}
+}
+func (f *verifC44Conn) SetDeadline(t time.Time) error      { return nil }
+func (f *verifC44Conn) SetReadDeadline(t time.Time) error  { return nil }
+func (f *verifC44Conn) SetWriteDeadline(t time.Time) error { return nil }
+
+// VerifC44DummyCert returns a Certificate whose private key has the requested type; it is only good
+// for readClientHello (which looks at the key type), not for a full handshake.
+func VerifC44DummyCert(ecdsaKey bool) Certificate {
+	if ecdsaKey {
+		return Certificate{Certificate: [][]byte{{0}}, PrivateKey: &ecdsa.PrivateKey{PublicKey: ecdsa.PublicKey{Curve: elliptic.P256()}}}
+	}
+	return Certificate{Certificate: [][]byte{{0}}, PrivateKey: &rsa.PrivateKey{PublicKey: rsa.PublicKey{N: big.NewInt(1), E: 3}}}
+}
+
+// VerifC44ReadClientHello marshals the hello with bfe's own marshaller, feeds it as the first record of
+// a fresh server connection and runs the real (*serverHandshakeState).readClientHello.
+func VerifC44ReadClientHello(cfg *Config, h *VerifC44Hello) *VerifC44Nego {
+	m := &clientHelloMsg{
+		vers:               h.Vers,
+		random:             make([]byte, 32),
+		sessionId:          h.SessionId,
+		cipherSuites:       h.Suites,
+		compressionMethods: h.Compression,
+		nextProtoNeg:       h.NPN,
+		serverName:         h.ServerName,
+		supportedPoints:    h.Points,
+		ticketSupported:    h.TicketSupported,
+		sessionTicket:      h.SessionTicket,
+		alpnProtocols:      h.ALPN,
+	}
+	for _, c := range h.Curves {
+		m.supportedCurves = append(m.supportedCurves, CurveID(c))
+	}
+	body := m.marshal()
+	rec := []byte{byte(recordTypeHandshake), 3, 1, byte(len(body) >> 8), byte(len(body))}
+	fc := &verifC44Conn{in: append(rec, body...)}
+	c := Server(fc, cfg)
+	hs := serverHandshakeState{c: c}
+	nCurves := len(h.Curves)
+	isResume, err := hs.readClientHello()
+	res := &VerifC44Nego{Alert: -1, Resume: isResume, Vers: c.vers, ClientProto: c.clientProtocol, ClientAuth: int(c.clientAuth)}
+	if err != nil {
+		res.Err = err.Error()
+	}
+	// alerts are written in the clear before any cipher is established: 21 vv vv 00 02 level desc
+	out := fc.out
+	for len(out) >= 5 {
+		n := int(out[3])<<8 | int(out[4])
+		if len(out) < 5+n {
+			break
+		}
+		if out[0] == byte(recordTypeAlert) && n == 2 {
+			res.Alert = int(out[6])
+		}
+		out = out[5+n:]
+	}
+	if hs.suite != nil {
+		res.Suite = hs.suite.id
+	}
+	if hs.hello != nil {
+		res.ALPN = hs.hello.alpnProtocol
+		res.NPN = hs.hello.nextProtoNeg
+		res.NPNProtos = hs.hello.nextProtos
+	}
+	if hs.clientHello != nil && len(hs.clientHello.supportedCurves) > nCurves {
+		res.EcdheNoExt = true
+	}
+	if isResume && hs.sessionState != nil {
+		res.SessVers = hs.sessionState.vers
+		res.SessSuite = hs.sessionState.cipherSuite
+		res.SessMaster = hs.sessionState.masterSecret
+	}
+	return res
+}
+
+// VerifC44State is a sessionState.
+type VerifC44State struct {
+	Vers, Suite uint16
+	Master      []byte
+	Certs       [][]byte
+}
+
+func (v *VerifC44State) state() *sessionState {
+	return &sessionState{vers: v.Vers, cipherSuite: v.Suite, masterSecret: v.Master, certificates: v.Certs}
+}
+
+func verifC44FromState(s *sessionState) *VerifC44State {
+	return &VerifC44State{Vers: s.vers, Suite: s.cipherSuite, Master: s.masterSecret, Certs: s.certificates}
+}
+
+// VerifC44Marshal runs (*sessionState).marshal.
+func VerifC44Marshal(v *VerifC44State) []byte { return v.state().marshal() }
+
+// VerifC44Unmarshal runs (*sessionState).unmarshal on a copy of data.
+func VerifC44Unmarshal(data []byte) (*VerifC44State, bool) {
+	s := new(sessionState)
+	if !s.unmarshal(append([]byte(nil), data...)) {
+		return nil, false
+	}
+	return verifC44FromState(s), true
+}
+
+// VerifC44EncryptTicket runs (*Conn).encryptTicket with cfg's key and randomness (the IV is read from cfg.Rand).
+func VerifC44EncryptTicket(cfg *Config, v *VerifC44State) ([]byte, error) {
+	c := &Conn{config: cfg}
+	return c.encryptTicket(v.state())
+}
+
+// VerifC44DecryptTicket runs (*Conn).decryptTicket on a copy of the ticket (it decrypts in place).
+func VerifC44DecryptTicket(cfg *Config, ticket []byte) (*VerifC44State, bool) {
+	c := &Conn{config: cfg}
+	s, ok := c.decryptTicket(append([]byte(nil), ticket...))
+	if !ok || s == nil {
+		return nil, false
+	}
+	return verifC44FromState(s), true
+}
